@@ -94,13 +94,46 @@ def _xyz_ens(V):
     V.ensure("roundtrip/elements", I.and_(*[I.eq(x.fields["element"], y.fields["element"]) for x, y in zip(e.fields["_atoms"].items, r.fields["_atoms"].items)]))
 
 
+@P.unit(f"{GEO}.yield_from_xyz", name="multi-molecule xyz text: every frame keeps its own elements, atom order and dummy flags",
+        functions=[f"{GEO}.yield_from_xyz", f"{GEO}.loads_all_xyz", "molli.parsing.xyz:read_xyz"])
+def _xyz_multi(V):
+    I, st = V.I, V.st
+    T.use(st)
+    # two different molecules with the same number of atoms (a trajectory of different species, e.g. reactant / product)
+    m1 = geom(V, "Molecule", ("O", "H"))
+    m2 = geom(V, "Molecule", ("S", "C"))
+    V.witness(lambda ev: {"op": "xyz-multi", "signature": "xyz-multi"})
+    V.cover()
+    w1, w2 = V.method(m1, "dumps_xyz", []), V.method(m2, "dumps_xyz", [])
+    V.ensure("writer/returns-text", z3.BoolVal(w1.returned and w2.returned))
+    if not (w1.returned and w2.returned):
+        return
+    text = T.SStr([w1.value, w2.value])
+    cls = V.cls(M.CLS["Molecule"])
+    I.target = f"{GEO}.yield_from_xyz"
+    try:
+        rs = list(I.iterate(I.call(I.getattr_(cls, "loads_all_xyz"), [text], {})))
+    except PyExc:
+        V.ensure("multi/reader-accepts-the-text", z3.BoolVal(False))
+        return
+    V.ensure("multi/reader-accepts-the-text", z3.BoolVal(len(rs) == 2))
+    if len(rs) != 2:
+        return
+    for j, (src, r) in enumerate(zip((m1, m2), rs)):
+        V.ensure(f"multi/frame{j}:own-elements-in-order", I.and_(len(r.fields["_atoms"].items) == 2,
+                 *[I.eq(x.fields["element"], y.fields["element"]) for x, y in zip(src.fields["_atoms"].items, r.fields["_atoms"].items)]))
+        V.ensure(f"multi/frame{j}:regular-atoms-stay-regular", z3.BoolVal(all(getattr(y.fields["atype"], "name", None) == "Regular" for y in r.fields["_atoms"].items)))
+
+
 def units_unit(fmt):
     def body(V):
         I, st = V.I, V.st
         T.use(st)
         unit = V.choose(sorted(ANGSTROM_PER), "unit")
+        # every text/stream entry point of the class takes the unit: loads_*, load_* (stream), loads_all_*, load_all_* (stream)
+        entry = V.choose(["loads", "load", "loads_all", "load_all"], "entry")
         m = geom(V, "Molecule", ("C", "O"))
-        V.witness(lambda ev: {"op": "units", "format": fmt, "unit": unit, "signature": f"units/{fmt}"})
+        V.witness(lambda ev: {"op": "units", "format": fmt, "unit": unit, "entry": entry, "signature": f"units/{fmt}"})
         V.cover()
         w = V.method(m, f"dumps_{fmt}", [])
         V.ensure("writer/returns-text", z3.BoolVal(w.returned))
@@ -109,7 +142,12 @@ def units_unit(fmt):
         cls = V.cls(M.CLS["Molecule"])
         I.target = f"{GEO}.yield_from_xyz" if fmt == "xyz" else f"{M.CLS['Structure']}.yield_from_mol2"
         try:
-            r = I.call(I.getattr_(cls, f"loads_{fmt}"), [w.value], {"source_units": unit})
+            arg = w.value if entry.startswith("loads") else I.call(I.ext_models["io.StringIO"], [w.value], {})
+            r = I.call(I.getattr_(cls, f"{entry}_{fmt}"), [arg], {"source_units": unit})
+            if entry.endswith("_all"):
+                r = list(I.iterate(r))
+                V.ensure("reader/all-variant-returns-the-one-molecule-of-the-file", z3.BoolVal(len(r) == 1))
+                r = r[0]
         except PyExc:
             V.ensure("reader/accepts-every-distance-unit", z3.BoolVal(False))
             return
